@@ -1,0 +1,17 @@
+//go:build verif
+
+// Contracts for package bodyprocessors, checked by /verif/govc (comment-only file; no code).
+package bodyprocessors
+
+// No temporary file is left unrecorded (C20): whatever happens while the parts are read -- including any failing
+// file-system or read operation -- every temporary file that exists when ProcessRequest returns and did not exist
+// before was recorded in a collection (FILES_TMPNAMES), so that closing the transaction can remove it.
+//@ func (*multipartBodyProcessor).ProcessRequest props C20
+//@   modifies inferred, liveTmp, addedVals, colVer
+//@   ensures everyFileRecorded: forall s string :: in(s, liveTmp) ==> in(s, old(liveTmp)) || in(s, addedVals)
+//@   loop 1
+//@     invariant forall s string :: in(s, liveTmp) ==> in(s, old(liveTmp)) || in(s, addedVals)
+//@   loop 2
+//@     invariant forall s string :: in(s, liveTmp) ==> in(s, old(liveTmp)) || in(s, addedVals)
+//@   loop 3
+//@     invariant forall s string :: in(s, liveTmp) ==> in(s, old(liveTmp)) || in(s, addedVals)
